@@ -345,6 +345,18 @@ def step_equations_fail(kind, a, outs):
             X = X - X.T
             if not close(r[d], q[0].T @ H - (S + X) @ r[0], 1e-8) or not close(q[d], (H - q[0] @ r[d]) @ Rinv, 1e-8):
                 return 'qr-tall-step: the order-%d step equations of _qr_rectangular for a tall matrix (model of the theorem) do not hold on the output' % d
+    if kind == 'qr' and n < m and D > 1:
+        # wide QR (Proofs/FactorWide.lean): the hypotheses of qr_wide_defining_equation on the output -- the square step equations on
+        # the first M columns (Q, R1) and R2 = Q(t)^T A2(t) as a polynomial product
+        q, r = outs
+        M_ = n
+        f = step_equations_fail('qr', a[:, :, :M_], (q, r[:, :, :M_]))
+        if f:
+            return f
+        for d in range(D):
+            want = sum((q[k].T @ a[d - k][:, M_:] for k in range(d + 1)), np.zeros((M_, m - M_)))
+            if not close(r[d][:, M_:], want, 1e-8):
+                return 'qr-wide-step: R2 is not the order-%d coefficient of Q(t)^T A2(t) (model of the theorem) on the output' % d
     if kind == 'cholesky':
         l_, = outs
         L0inv = np.linalg.inv(l_[0])
